@@ -463,9 +463,9 @@ pub struct IterativeQuerySnapshot {
 #[derive(Clone, Debug, PartialEq)]
 pub struct PutQuerySnapshot {
     pub target: Id,
-    pub stored_at: u8,
+    pub stored_at: usize,
     pub inflight_requests: Vec<u32>,
-    pub errors: Vec<(u8, i32)>,
+    pub errors: Vec<(usize, i32)>,
     pub extra_nodes: usize,
     pub request: PutRequestSpecific,
 }
